@@ -104,14 +104,34 @@ def jRes (ne : ε → String) : Res ε Bytes → Json
   | .ok b => jObj [("ok", jBytes b)]
   | .err e => jObj [("err", Json.str (ne e))]
 
+/-- `{"p": hex path, "en": errno number, "cls": hex of the OSError subclass name}`: `os.stat(p)` fails with an
+    errno that is neither ENOENT nor EACCES / EPERM (a PermissionError entry is rejected: that is `denied`) -/
+def parseStatFail (j : Json) : R (Bytes × StatFail) := do
+  let p ← bytesF j "p"
+  let en ← natF j "en"
+  let cls ← bytesF j "cls"
+  if h : cls ≠ clsPermissionError then pure (p, ⟨en, cls, h⟩)
+  else .error "stat_err: PermissionError is not a stat failure of this kind (use denied)"
+
 def parseFS (j : Json) : R FS := do
   let files ← listF asBytes j "files"
   let others ← listF asBytes j "others"
   let denied ← match j.getObjVal? "denied" with
     | .ok _ => listF asBytes j "denied"
     | .error _ => pure []
+  let statErr ← match j.getObjVal? "stat_err" with
+    | .ok _ => listF parseStatFail j "stat_err"
+    | .error _ => pure []
   pure { isFile := fun p => files.contains p, pathExists := fun p => files.contains p || others.contains p,
-         denied := fun p => denied.contains p }
+         denied := fun p => denied.contains p, statErr := fun p => statErr.lookup p }
+
+/-- `Spec.StatCoherent` on the names the case speaks about: a name whose `os.stat` fails is neither a file nor existing -/
+def fsCoherent (j : Json) : R Bool := do
+  let fs ← parseFS j
+  let statErr ← match j.getObjVal? "stat_err" with
+    | .ok _ => listF parseStatFail j "stat_err"
+    | .error _ => pure []
+  pure (statErr.all fun pf => !fs.isFile pf.1 && !fs.pathExists pf.1 && !fs.denied pf.1)
 
 def optBool (j : Json) (k : String) : R Bool :=
   match j.getObjVal? k with
@@ -245,6 +265,7 @@ def handle (_ : Unit) (j : Json) : R (Unit × Json) := do
   else if op == "table" then do
     let fds ← listF parseFd j "fds"
     let fs ← parseFS j
+    let coh ← fsCoherent j
     let gb ← boolF j "gone_before"
     let da ← optF asNat j "dies_at"
     let zombie ← optBool j "zombie"
@@ -256,7 +277,8 @@ def handle (_ : Unit) (j : Json) : R (Unit × Json) := do
                        ("num_fds", jOutcome jNat (numFds cfg p))]
     let spec := jObj [("open_files", jOutcome (jList jFile) (Spec.expectedOpenFiles w)),
                       ("num_fds", jOutcome jNat (Spec.expectedNumFds w))]
-    return ((), jObj [("wf", Json.bool (wfAll fs fds)), ("render", jProc p), ("model", model), ("spec", spec)])
+    return ((), jObj [("wf", Json.bool (wfAll fs fds)), ("coherent", Json.bool coh), ("render", jProc p),
+      ("model", model), ("spec", spec)])
   else if op == "raw" then do
     let fs ← parseFS j
     let alive ← boolF j "alive"
